@@ -220,6 +220,9 @@ def c14(run):
         check_no_state_copies(run, F, 'C14.e')
         from rules import c01 as _c01
         _c01.deactivation_resets(run, F, E, 'C14.c')      # ... so that the next activation starts in the first declared state
+        # a moved-from / copied-from machine keeps its registry: its destructor must exit the state it entered, not the last declared one
+        from lint import records as _rec
+        run.guard('source untouched', _rec.source_untouched, run, 'C14.f', F, E)
         facts.drop(F)
         cfgmod.clear_cache()
     # C14.c on the interpreted program (whatever functions the activation / processing code is split into): with nothing accepted the
@@ -234,3 +237,4 @@ def c14(run):
     run.floor('C14.c', 3)
     run.floor('C14.d', 6)
     run.floor('C14.e', 20)
+    run.floor('C14.f', 20)
